@@ -8,9 +8,9 @@
 #include <cmath>
 
 struct C14Sys {
-    RandSystem rs; std::vector<int> par; int ncons, nmotion, nlock, nmassless; bool ok;
+    RandSystem rs; std::vector<int> par; int ncons, nmotion, nlock, nmassless, lone; bool ok;
     Force::DiscreteForces* discrete;
-    C14Sys() : ncons(0), nmotion(0), nlock(0), nmassless(0), ok(false), discrete(0) {}
+    C14Sys() : ncons(0), nmotion(0), nlock(0), nmassless(0), lone(-1), ok(false), discrete(0) {}
     ~C14Sys() { delete discrete; }
     void build(Rng& r, int nb, int shape) {
         int mode = r.I(0, 3) == 0 ? 1 : 0;
@@ -28,6 +28,13 @@ struct C14Sys {
             MobilizedBody mb = addMobod(ty, parent, r.xf(), body, r.xf(), rev);
             rs.types.push_back(ty); rs.revs.push_back(rev);
             if (i + 1 == motionBody && ty != 16) { Motion::Sinusoid(mb, Motion::Position, r.U(0.1, 0.5), r.U(0.5, 2), r.U(0, 3)); ++nmotion; }
+        }
+        // RBNodeLoneParticle configuration (RigidBodyNode_LoneParticle.cpp): forward Translation on Ground, identity F and M frames,
+        // no children (added last, so no later body can pick it as parent); the body keeps an off-origin mass centre
+        if (r.I(0, 5) == 0) {
+            Body::Rigid body(randomMassProps(r));
+            MobilizedBody::Translation(rs.matter.Ground(), Transform(), body, Transform());
+            rs.types.push_back(10); rs.revs.push_back(false); par.push_back(0); lone = nb + 1;
         }
         Force::UniformGravity(rs.forces, rs.matter, r.v3(9.8));
         discrete = new Force::DiscreteForces(rs.forces, rs.matter);
@@ -66,6 +73,9 @@ struct C14Sys {
         ok = true;
         for (MobilizedBodyIndex b(1); b < rs.matter.getNumBodies(); ++b) { const SpatialVec& A = rs.matter.getMobilizedBody(b).getBodyAcceleration(s);
             for (int i = 0; i < 2; ++i) for (int j = 0; j < 3; ++j) if (!std::isfinite(A[i][j]) || std::abs(A[i][j]) > 1e5) ok = false; }
+        // a massless body whose mobilizer has more freedom than the outboard articulated inertia can resist makes the mass matrix
+        // singular; simbody then returns finite but meaningless accelerations (the property presupposes a regular system): skip
+        if (nmassless > 0 && s.getNU() > 0) { Matrix M; rs.matter.calcM(s, M); FactorQTZ qtz(M, 1e-9); if (qtz.getRank() < s.getNU()) ok = false; }
         const Vector& lam = s.getMultipliers(); for (int i = 0; i < lam.size(); ++i) if (!std::isfinite(lam[i]) || std::abs(lam[i]) > 1e5) ok = false;
     }
 };
@@ -97,7 +107,7 @@ static int corr(unsigned long long seed, int nsys, int maxb) {
             const Transform& X = mb.getBodyTransform(s); const Transform& XP = mb.getParentMobilizedBody().getBodyTransform(s);
             const MassProperties& mp = mb.getBodyMassProperties(s);
             Mat33 R = X.R().asMat33(); Mat33 GG = R * mp.getUnitInertia().toMat33() * ~R; Vec3 pG = R * mp.getMassCenter();
-            std::printf("BODY %d %d %s %d", (int)b, p, MOBTYPES[cs.rs.types[b - 1]], (int)cs.rs.revs[b - 1]);
+            std::printf("BODY %d %d %s %d", (int)b, p, (int)b == cs.lone ? "LoneTranslation" : MOBTYPES[cs.rs.types[b - 1]], (int)cs.rs.revs[b - 1]);
             p3(X.p() - XP.p()); std::printf(" %a", mp.getMass()); p3(pG); psym(GG);
             psv(mb.getBodyVelocity(s)); psv(mb.getBodyAcceleration(s)); psv(Fapp[b]); psv(fc[b]);
             p3(R * mb.getOutboardFrame(s).p()); p3(XP.R().asMat33() * mb.getInboardFrame(s).p());
@@ -119,10 +129,10 @@ static int corr(unsigned long long seed, int nsys, int maxb) {
 }
 
 // ---------------------------------------------------------------- search
-static long evals = 0; static int fails = 0;
+static long evals = 0; static int fails = 0; static int failsLone = 0;
 static void chk(const char* what, Real err, Real scale, unsigned long long seed, int k, int body, const C14Sys& cs) {
     ++evals;
-    if (!(err <= 1e-7 * (1 + scale))) { if (fails++ < 8) { std::printf("FAIL C14 %s err=%.6g scale=%.6g seed=%llu system=%d body=%d euler=%d cons=%d motion=%d lock=%d mobilizers=", what, err, scale, seed, k, body, (int)cs.rs.euler, cs.ncons, cs.nmotion, cs.nlock);
+    if (!(err <= 1e-7 * (1 + scale))) { int& cnt = (what[0] == 'l' && what[1] == 'o') ? failsLone : fails; if (cnt++ < 8) { std::printf("FAIL C14 %s err=%.6g scale=%.6g seed=%llu system=%d body=%d euler=%d cons=%d motion=%d lock=%d mobilizers=", what, err, scale, seed, k, body, (int)cs.rs.euler, cs.ncons, cs.nmotion, cs.nlock);
         for (size_t i = 0; i < cs.rs.types.size(); ++i) std::printf("%s%s<-%d,", MOBTYPES[cs.rs.types[i]], cs.rs.revs[i] ? "(rev)" : "", cs.par[i]); std::printf("\n"); } }
 }
 static Real svn(const SpatialVec& v) { return v[0].norm() + v[1].norm(); }
@@ -150,7 +160,7 @@ static int search(unsigned long long seed, int nsys, int maxb) {
             for (MobilizedBodyIndex cb(1); cb < NB; ++cb) { const MobilizedBody& ch = m.getMobilizedBody(cb);
                 if (ch.getParentMobilizedBody().getMobilizedBodyIndex() != b) continue;
                 total += ch.findMobilizerReactionOnParentAtOriginInGround(s); }
-            chk("newton-euler-residual", svn(total - rate), fscale + svn(rate), seed, k, b, cs);
+            chk((int)b == cs.lone ? "loneparticle-com-offset-reaction-torque" : "newton-euler-residual", svn(total - rate), fscale + svn(rate), seed, k, b, cs);
             // equal and opposite: body-side reaction at M and parent-side reaction at F, both moved to the parent's origin, cancel
             const Transform& XP = mb.getParentMobilizedBody().getBodyTransform(s); const Transform& X = mb.getBodyTransform(s);
             Vec3 pM = X.p() + R * mb.getOutboardFrame(s).p(), pF = XP.p() + XP.R() * mb.getInboardFrame(s).p();
@@ -170,11 +180,36 @@ static int search(unsigned long long seed, int nsys, int maxb) {
           for (MobilizedBodyIndex cb(1); cb < NB; ++cb) if (m.getMobilizedBody(cb).getParentMobilizedBody().getMobilizedBodyIndex() == 0) g += m.getMobilizedBody(cb).findMobilizerReactionOnParentAtOriginInGround(s);
           chk("ground-balance", svn(g), fscale, seed, k, 0, cs); }
     }
-    std::printf("DONE %ld fails=%d\n", evals, fails);
+    std::printf("DONE %ld fails=%d failsLone=%d\n", evals, fails, failsLone);
+    return 0;
+}
+
+// ---------------------------------------------------------------- witness (found by the C02 builder): lone Translation body, off-origin mass centre
+static int witness() {
+    Vec3 tq[2];
+    for (int variant = 0; variant < 2; ++variant) {   // 0: identity M frame -> RBNodeLoneParticle;  1: M offset 1e-100 -> regular RBNodeTranslate
+        MultibodySystem sys; SimbodyMatterSubsystem matter(sys); GeneralForceSubsystem forces(sys);
+        Body::Rigid body(MassProperties(2, Vec3(0.3, -0.2, 0.5), Inertia(Vec3(0.3, -0.2, 0.5), 2) + Inertia(1, 1, 1)));
+        MobilizedBody::Translation b(matter.Ground(), Transform(Vec3(0)), body, Transform(Vec3(variant ? 1e-100 : 0)));
+        Force::DiscreteForces df(forces, matter);
+        State s = sys.realizeTopology(); sys.realizeModel(s);
+        df.setOneMobilityForce(s, b, MobilizerUIndex(0), 1); df.setOneMobilityForce(s, b, MobilizerUIndex(1), -2); df.setOneMobilityForce(s, b, MobilizerUIndex(2), 0.5);
+        df.setOneBodyForce(s, b, SpatialVec(Vec3(0.7, 0.1, -0.3), Vec3(-1, 2, 3)));
+        sys.realize(s, Stage::Acceleration);
+        Vector_<SpatialVec> fm, fb; matter.calcMobilizerReactionForces(s, fm); matter.calcMobilizerReactionForcesUsingFreebodyMethod(s, fb);
+        tq[variant] = fm[b.getMobilizedBodyIndex()][0];
+        if (variant == 0) {
+            Vec3 d = fm[b.getMobilizedBodyIndex()][0] - fb[b.getMobilizedBodyIndex()][0];
+            std::printf("WITNESS loneparticle-com-offset-reaction-torque bad=%d calcMobilizerReactionForces.torque=%g,%g,%g freebody.torque=%g,%g,%g\n", (int)(d.norm() > 1e-9),
+                        fm[1][0][0], fm[1][0][1], fm[1][0][2], fb[1][0][0], fb[1][0][1], fb[1][0][2]);
+        }
+    }
+    std::printf("WITNESS-INFO regular-RBNodeTranslate torque=%g,%g,%g\n", tq[1][0], tq[1][1], tq[1][2]);
     return 0;
 }
 
 int main(int argc, char** argv) {
+    if (argc >= 2 && std::string(argv[1]) == "witness") return witness();
     if (argc < 5) { std::fprintf(stderr, "usage: C14_probe corr|search seed nsys maxb\n"); return 2; }
     unsigned long long seed = std::strtoull(argv[2], 0, 10); int nsys = std::atoi(argv[3]); int maxb = std::atoi(argv[4]);
     return std::string(argv[1]) == "search" ? search(seed, nsys, maxb) : corr(seed, nsys, maxb);
